@@ -311,6 +311,8 @@ def c06_rf10(run):
     rf_abi.rf10b(run)
     run.min_instances('RF10b', 12)
     rf_abi.rf10e(run)
+    rf_abi.rf10f(run)
+    rf_abi.rf10g(run)
     rf_dispatch.rf7f(run)
     run.min_instances('RF7f', 30)
 
